@@ -568,6 +568,7 @@ static void case_temp(void)
 int main(int argc, char **argv)
 {
     vh_init(argc, argv, "C11");
+    vh_case_cpu_budget = 30;          /* a C11 case takes well under a second; a parser that stops advancing is reported after 30 s of CPU time */
     cx_scratch_init();
     cx_env_on = 1;
     snprintf(magic, sizeof magic, "<%s-%s>\n", libast_program_name, libast_program_version);
@@ -605,6 +606,7 @@ int main(int argc, char **argv)
             cx_env_set("HOME", "/home/user"); cx_env_set("A", "valueA"); cx_env_set("FOO", "foo bar"); cx_env_set("TMPDIR", "tmp");
             cx_sim_output = vh_coin(50) ? NULL : "out put\n";
             cx_sim_cat = vh_coin(40);
+            cx_sim_nul_first = cx_sim_output && vh_coin(25);
             if ((kind == K_BYTES || kind == K_MUT) && vh_coin(10)) { cx_env_set("TMPDIR", "no/such/dir"); vh_count("tmpdir_missing_cases", 1); }   /* temp file creation fails */
             cx_rand_state = vh_mix(vh_seed, (uint64_t) vh_case_idx);
 
